@@ -199,6 +199,17 @@ def build_cases(rng, tier):
                   'files': {'answer.py': 'def rec(n):\n    if n == 0:\n        raise ValueError("deep")\n    return rec(n - 1)\nrec(150)\n'},
                   'steps': [{'entry': 'run'}], 'cls': 'ValueError', 'mro': mro_of('ValueError'), 'where': 'exec', 'line': 3,
                   'raise_file': 'answer.py'})
+    # a failure after the execution consumed N values from input() (the feedback lists the inputs, shortened when there are many)
+    for n_in in (0, 1, 2, 29, 30, 31, 32, 45, 200):
+        prog = 'total = 0\nfor i in range(%d):\n    total += int(input("n?"))\nprint(total)\ny = 1 / 0\n' % n_in
+        cases.append({'tag': 'fail-after-%d-inputs' % n_in, 'entry': 'run', 'files': {'answer.py': prog},
+                      'steps': [{'entry': 'run', 'inputs': [str(k % 7) for k in range(n_in)]}], 'cls': 'ZeroDivisionError',
+                      'mro': mro_of('ZeroDivisionError'), 'where': 'exec', 'line': 5, 'raise_file': 'answer.py'})
+    fn = 'def ask(n):\n    vals = []\n    for i in range(n):\n        vals.append(input())\n    return vals[n]\n'
+    for n_in in (3, 31, 64):
+        cases.append({'tag': 'call-fails-after-%d-inputs' % n_in, 'entry': 'call', 'files': {'answer.py': fn},
+                      'steps': [{'entry': 'run', 'setup': True}, {'entry': 'call', 'fn': 'ask', 'args': [n_in], 'inputs': ['v%d' % k for k in range(n_in)]}],
+                      'cls': 'IndexError', 'mro': mro_of('IndexError'), 'where': 'exec', 'line': 5, 'raise_file': 'answer.py'})
     # the same exception OBJECT raised again by a later call
     cases.append({'tag': 'same-object-twice', 'entry': 'call',
                   'files': {'answer.py': 'ERR = ValueError("prebuilt")\ndef g():\n    raise ERR\n'},
@@ -262,6 +273,30 @@ def build_cases(rng, tier):
         cases.append({'tag': 'timeout:' + tag, 'entry': 'timeout', 'files': {'answer.py': code},
                       'steps': [{'entry': 'run', 'threaded': True}, {'entry': 'runcode', 'code': 'print("next")\n', 'probe': True}],
                       'cls': 'TimeoutError', 'mro': mro_of('TimeoutError'), 'where': 'exec', 'line': None, 'raise_file': 'answer.py'})
+    # instructor stand-ins for the very modules pedal patches around an execution (and for others): nothing may escape and
+    # everything is restored, whether the student's code ends normally or fails
+    for modname, attrs, use in (('time', {'now': 5}, 'time.now'), ('time', {'sleep': 7, 'now': 5}, 'time.sleep'), ('sys', {'argv': ['x']}, 'sys.argv'),
+                                ('io', {'marker': 1}, 'io.marker'), ('os', {'name': 'fake'}, 'os.name'), ('random', {'seed': 4}, 'random.seed')):
+        for tail, cls in (('', None), ('y = 1 / 0\n', 'ZeroDivisionError')):
+            code = 'import %s\nprint(%s)\n%s' % (modname, use, tail)
+            cases.append({'tag': 'instructor-mocks:%s%s' % (use, '+fails' if tail else ''), 'entry': 'history', 'files': {'answer.py': code},
+                          'mocks': [[modname, attrs]], 'steps': [{'entry': 'run'}, {'entry': 'runcode', 'code': 'print("next")\n', 'probe': True}],
+                          'chosen': [], 'cls': None, 'mro': None, 'where': 'exec', 'line': None, 'raise_file': 'answer.py'})
+    # the same executions while the grading script holds patches of its own (its own stdout capture, a fake sleep, a module)
+    import copy
+    seen = set()
+    extra = []
+    for c in cases:
+        k = (c['entry'], c['tag'].split(':')[0], c['where'])
+        if k in seen or c['tag'].startswith('timeout') or c.get('sections'):
+            continue
+        seen.add(k)
+        d = copy.deepcopy(c)
+        d['tag'] = c['tag'] + '+grader-patches'
+        d['grader_patches'] = True
+        d['skip_model'] = True
+        extra.append(d)
+    cases += extra
     return cases
 
 
@@ -303,7 +338,7 @@ def oracle_c05(case, steps):
 
 
 def oracle_c04(case, steps):
-    if case['tag'].startswith('tamper:'):
+    if case['tag'].startswith('tamper:') or case['tag'].startswith('instructor-mocks:'):
         # whatever the student does to the patched objects, nothing escapes into the grader
         for i, ob in enumerate(steps):
             if ob['escaped']:
@@ -337,7 +372,8 @@ def oracle_c04(case, steps):
 def correspondence(ctx):
     rng = ctx.rng
     cases = build_cases(rng, ctx.tier)
-    res = vlib.run_impl('c05_impl.py', {'cases': [{'files': c['files'], 'steps': c['steps'], 'sections': c.get('sections', False)} for c in cases]}, timeout=1500)
+    res = vlib.run_impl('c05_impl.py', {'cases': [{'files': c['files'], 'steps': c['steps'], 'sections': c.get('sections', False), 'mocks': c.get('mocks', []),
+                                                     'grader_patches': c.get('grader_patches', False)} for c in cases]}, timeout=1500)
     ex_site, co_site = sites()
     items = []
     for case, steps in zip(cases, res):
